@@ -89,12 +89,13 @@ def gen_inputs(key, r):
     if base == 'maketoeplitzCIJ':
         nn = int(r.randint(4, 9))
         return dict(n=nn, k=int(r.randint(2, 2 * nn)), s=float(r.choice([1., 1.5, 2.5])), seed=Scripted((), fallback_seed=int(r.randint(1 << 30)), max_draws=4000000))
-    if base == 'community_louvain':
+    if base in ('community_louvain', 'community_louvain@ci'):
         nn = n + int(r.randint(0, 4))
         Wm = _und(r, nn, p=float(r.choice([.3, .5, .8]))) if r.random_sample() < .6 else np.abs(_dir(r, nn, p=float(r.choice([.3, .6]))))
         if Wm.sum() <= 0:
             return None
-        return dict(W=Wm, gamma=float(r.choice([.8, 1., 1.3])), ci=None, B='modularity', seed=Scripted((), fallback_seed=int(r.randint(1 << 30)), max_draws=200000))
+        start = None if base == 'community_louvain' else r.randint(0, 4, nn) * 5 + 3
+        return dict(W=Wm, gamma=float(r.choice([.8, 1., 1.3])), ci=start, B='modularity', seed=Scripted((), fallback_seed=int(r.randint(1 << 30)), max_draws=200000))
     if base == 'modularity_louvain_und_sign':
         Wm = _und(r, n + int(r.randint(0, 4)), signed=True, p=float(r.choice([.4, .6, .9])))
         if r.random_sample() < .15:
